@@ -9,7 +9,9 @@ package c04
 import (
 	"context"
 	"fmt"
+	"os"
 	"strconv"
+	"strings"
 
 	"github.com/blevesearch/bleve/v2"
 	"github.com/blevesearch/bleve/v2/index/scorch"
@@ -31,7 +33,9 @@ type cfg struct {
 	searcher bool // reader thread also uses Index.Search
 }
 
-// batch j (1-based) of writer w: a,b carry seq=j; c exists iff j is odd; internal w<w>=j.
+// batch j (1-based) of writer w: a,b carry seq=j; c exists iff j is odd; d<j> is new in batch j and
+// never touched again (so every segment keeps a live document when a,b,c are obsoleted — a segment
+// that loses ALL its documents drops out of the root and takes a different code path); internal w<w>=j.
 func fillBatch(b *bleve.Batch, w, j int) {
 	doc := func() map[string]interface{} {
 		return map[string]interface{}{"w": fmt.Sprintf("w%d", w), "seq": strconv.Itoa(j)}
@@ -43,7 +47,22 @@ func fillBatch(b *bleve.Batch, w, j int) {
 	} else {
 		b.Delete(fmt.Sprintf("%d.c", w))
 	}
+	dd := doc()
+	dd["seq"] = "d" + strconv.Itoa(j)
+	b.Index(fmt.Sprintf("%d.d%d", w, j), dd)
 	b.SetInternal([]byte(fmt.Sprintf("w%d", w)), []byte(strconv.Itoa(j)))
+}
+
+// liveDocs is the number of documents of one writer after its batch j.
+func liveDocs(j int) int {
+	if j == 0 {
+		return 0
+	}
+	n := 2 + j
+	if j%2 == 1 {
+		n++
+	}
+	return n
 }
 
 func docSeq(d index.Document) int {
@@ -89,10 +108,16 @@ func readView(c *drv.Ctx, r index.IndexReader, writers int) (view []int, ok bool
 				return view, false
 			}
 		}
-		if j > 0 {
-			exp += 2
-			if j%2 == 1 {
-				exp++
+		exp += uint64(liveDocs(j))
+		for dj := 1; dj <= j+1; dj++ {
+			d, err := r.Document(fmt.Sprintf("%d.d%d", w, dj))
+			if err != nil {
+				c.Fail("error:reader", "Document: %v", err)
+				return view, false
+			}
+			if (d != nil) != (dj <= j) {
+				c.Fail("torn-view:reader", "one reader shows writer %d at batch %d but document %d.d%d present=%v", w, j, w, dj, d != nil)
+				return view, false
 			}
 		}
 		// postings view: term w:w<w> must list exactly the live docs of the writer
@@ -110,13 +135,7 @@ func readView(c *drv.Ctx, r index.IndexReader, writers int) (view []int, ok bool
 			n++
 		}
 		tfr.Close()
-		wantN := uint64(0)
-		if j > 0 {
-			wantN = 2
-			if j%2 == 1 {
-				wantN = 3
-			}
-		}
+		wantN := uint64(liveDocs(j))
 		if n != wantN {
 			c.Fail("torn-view:postings", "one reader shows writer %d at batch %d but term w:w%d has %d postings (want %d)", w, j, w, n, wantN)
 			return view, false
@@ -141,7 +160,7 @@ func searchView(c *drv.Ctx, idx bleve.Index, writers int) (view []int, ok bool) 
 		q := bleve.NewTermQuery(fmt.Sprintf("w%d", w))
 		q.SetField("w")
 		req := bleve.NewSearchRequest(q)
-		req.Size = 10
+		req.Size = 30
 		req.Fields = []string{"seq"}
 		res, err := idx.Search(req)
 		if err != nil {
@@ -149,8 +168,14 @@ func searchView(c *drv.Ctx, idx bleve.Index, writers int) (view []int, ok bool) 
 			return view, false
 		}
 		j := -1
+		nd := 0
 		for _, h := range res.Hits {
-			s, _ := strconv.Atoi(fmt.Sprint(h.Fields["seq"]))
+			sv := fmt.Sprint(h.Fields["seq"])
+			if strings.HasPrefix(sv, "d") {
+				nd++
+				continue
+			}
+			s, _ := strconv.Atoi(sv)
 			if j == -1 {
 				j = s
 			} else if s != j {
@@ -161,15 +186,9 @@ func searchView(c *drv.Ctx, idx bleve.Index, writers int) (view []int, ok bool) 
 		if j == -1 {
 			j = 0
 		}
-		want := 0
-		if j > 0 {
-			want = 2
-			if j%2 == 1 {
-				want = 3
-			}
-		}
-		if len(res.Hits) != want || int(res.Total) != want {
-			c.Fail("torn-view:search", "search for writer %d at batch %d returned %d hits (Total %d), want %d", w, j, len(res.Hits), res.Total, want)
+		want := liveDocs(j)
+		if len(res.Hits) != want || int(res.Total) != want || nd != j {
+			c.Fail("torn-view:search", "search for writer %d at batch %d returned %d hits (Total %d, %d per-batch documents), want %d (%d per-batch documents)", w, j, len(res.Hits), res.Total, nd, want, j)
 			return view, false
 		}
 		view[w] = j
@@ -318,8 +337,137 @@ func body(k cfg) func(c *drv.Ctx) {
 	}
 }
 
+// ---- gated merge: the public event callback parks the merger between "merged segment built" and
+// "handed to the introducer", which turns the timing window "a batch lands while a merge is in
+// flight" into an ordinary step of the driver (deviations explore around it).
+
+type mergeGate struct {
+	armed   bool
+	parked  chan int
+	release chan int
+}
+
+var gate *mergeGate
+
+func init() {
+	scorch.RegistryEventCallbacks["verif-c04-merge-gate"] = func(e scorch.Event) bool {
+		if g := gate; g != nil && g.armed && e.Kind == scorch.EventKindMergeTaskIntroductionStart {
+			g.armed = false
+			vrt.Send(g.parked, 1)
+			vrt.Recv(g.release)
+		}
+		return true
+	}
+}
+
+func bodyGated(conf map[string]interface{}, viaForceMerge bool) func(c *drv.Ctx) {
+	return func(c *drv.Ctx) {
+		g := &mergeGate{parked: make(chan int, 1), release: make(chan int, 1)}
+		gate = g
+		defer func() { gate = nil }()
+		var idx bleve.Index
+		vrt.Free(func() {
+			var err error
+			cf := bx.CopyConfig(conf)
+			cf["eventCallbackName"] = "verif-c04-merge-gate"
+			idx, err = bleve.NewUsing(c.Dir+"/idx", bleve.NewIndexMapping(), scorch.Name, scorch.Name, cf)
+			if err != nil {
+				panic(err)
+			}
+		})
+		adv, _ := idx.Advanced()
+		// do(ws, j): ONE batch carrying batch j of every writer family in ws
+		do := func(ws []int, j int) bool {
+			b := idx.NewBatch()
+			for _, w := range ws {
+				fillBatch(b, w, j)
+			}
+			if err := idx.Batch(b); err != nil {
+				c.Fail("error:batch", "Batch: %v", err)
+				return false
+			}
+			return true
+		}
+		read := func(what string, want []int) {
+			r, err := adv.Reader()
+			if err != nil {
+				c.Fail("error:reader", "Reader: %v", err)
+				return
+			}
+			v, ok := readView(c, r, 2)
+			r.Close()
+			if ok && fmt.Sprint(v) != fmt.Sprint(want) {
+				c.Fail("stale-read:reader", "%s: batches %v had been acknowledged, a fresh reader shows %v", what, want, v)
+			}
+			sv, ok := searchView(c, idx, 2)
+			if ok && fmt.Sprint(sv) != fmt.Sprint(want) {
+				c.Fail("stale-read:search", "%s: batches %v had been acknowledged, a search shows %v", what, want, sv)
+			}
+			c.Observe(fmt.Sprintf("%s:%v", what, v))
+		}
+		dbg := func(at string) {
+			if os.Getenv("VERIF_DEBUG") != "" {
+				fmt.Fprintln(os.Stderr, "DEBUG", at, bx.ScorchLayout(idx))
+			}
+		}
+		// two segments with disjoint ids: neither carries an obsoleted document when the merge begins
+		if !do([]int{0}, 1) {
+			return
+		}
+		g.armed = true
+		var wg vrt.WaitGroup
+		if !do([]int{1}, 1) {
+			return
+		}
+		if viaForceMerge {
+			wg.Add(1)
+			vrt.Go(func() {
+				defer wg.Done()
+				if err := bx.Scorch(idx).ForceMerge(context.Background(), nil); err != nil {
+					c.Fail("error:forcemerge", "ForceMerge: %v", err)
+				}
+			})
+		}
+		vrt.Recv(g.parked) // the merged segment of segments 1+2 is built, not yet introduced
+		c.Count("merges_parked_before_introduction", 1)
+		dbg("merge parked")
+		// one batch obsoleting documents of BOTH merge inputs (each input keeps a live document)
+		if !do([]int{0, 1}, 2) {
+			return
+		}
+		dbg("batch landed")
+		read("while-merge-in-flight", []int{2, 2})
+		held, err := adv.Reader()
+		if err != nil {
+			c.Fail("error:reader", "Reader: %v", err)
+			return
+		}
+		hv, _ := readView(c, held, 2)
+		vrt.Send(g.release, 1)
+		wg.Wait()
+		vrt.WaitIdle() // the merge result has replaced its inputs
+		dbg("merge introduced")
+		read("after-merge-introduced", []int{2, 2})
+		if hv2, ok := readView(c, held, 2); ok && fmt.Sprint(hv2) != fmt.Sprint(hv) {
+			c.Fail("reader-changed", "a held reader first showed %v, after the merge %v", hv, hv2)
+		}
+		held.Close()
+		if !do([]int{0}, 3) {
+			return
+		}
+		vrt.WaitIdle()
+		read("after-next-batch", []int{3, 2})
+		vrt.Free(func() {
+			if err := idx.Close(); err != nil {
+				c.Fail("error:close", "Close: %v", err)
+			}
+		})
+	}
+}
+
 var unsafe2 = map[string]interface{}{"unsafe_batch": true, "scorchPersisterOptions": map[string]interface{}{"NumPersisterWorkers": 2, "MaxSizeInMemoryMergePerWorker": 1}}
 var aggressive = map[string]interface{}{"scorchMergePlanOptions": bx.AggressiveMergePlan}
+var nomerge = map[string]interface{}{"scorchMergePlanOptions": bx.NoMergePlan}
 
 // Scenarios of C04.
 func Scenarios() []drv.Scenario {
@@ -337,6 +485,10 @@ func Scenarios() []drv.Scenario {
 		{Name: "S4-unsafe-two-persister-workers", Doc: "2 writers × 2 unsafe batches ∥ reader; 2 persister workers with in-memory merges",
 			Body: body(cfg{engine: "scorch", conf: unsafe2, writers: 2, batches: 2}), Quick: d1,
 			Thorough: []drv.Phase{{Bound: 1}, {Bound: 2, Filter: "restricted"}}},
+		{Name: "S6-batch-lands-while-file-merge-in-flight", Doc: "writer ∥ background file merge parked (public event callback) between building the merged segment and its introduction; a batch obsoleting documents of the merge inputs lands in between",
+			Body: bodyGated(aggressive, false), Quick: d1, Thorough: []drv.Phase{{Bound: 1}, {Bound: 2, Filter: "restricted"}}},
+		{Name: "S7-batch-lands-while-forced-merge-in-flight", Doc: "the same with merging suppressed and a ForceMerge thread",
+			Body: bodyGated(nomerge, true), Quick: d1, Thorough: []drv.Phase{{Bound: 1}, {Bound: 2, Filter: "restricted"}}},
 		{Name: "S5-upsidedown-gtreap", Doc: "2 writers × 2 batches ∥ reader + searcher on upsidedown/gtreap",
 			Body: body(cfg{engine: "upsidedown", writers: 2, batches: 2, searcher: true}), Quick: d1,
 			Thorough: []drv.Phase{{Bound: 2}}},
